@@ -31,24 +31,25 @@ type verifFlight struct {
 }
 
 type verifWorld struct {
-	a, b            *verifMgr
-	chid            datatransfer.ChannelID
-	pull            bool
-	flights         []verifFlight
-	netSeenA        int // messages of a.net.Sent already put in flight
-	netSeenB        int
-	reqOpened       bool // a graphsync request exists
-	reqDelivered    bool
-	reqMsg          datatransfer.Message
-	senderDone      bool
-	requesterDone   bool
-	trSeenA         int
-	trSeenB         int
-	senderPaused    bool
-	requesterPaused bool
-	disturb         bool // pauses/resumes by either application and one restart by the initiator
-	restarts        int
-	pauses          int
+	a, b                              *verifMgr
+	chid                              datatransfer.ChannelID
+	pull                              bool
+	flights                           []verifFlight
+	netSeenA                          int // messages of a.net.Sent already put in flight
+	netSeenB                          int
+	reqOpened                         bool // a graphsync request exists
+	reqDelivered                      bool
+	reqMsg                            datatransfer.Message
+	senderDone                        bool
+	requesterDone                     bool
+	trSeenA                           int
+	trSeenB                           int
+	senderPaused                      bool
+	requesterPaused                   bool
+	disturb                           bool // pauses/resumes by either application and one restart by the initiator
+	restarts                          int
+	pauses                            int
+	everSenderDone, everRequesterDone bool
 }
 
 func (w *verifWorld) requester() *verifMgr {
@@ -154,7 +155,7 @@ func (w *verifWorld) check() {
 	}
 	zz.Assert(final, "initiator Completed => the responder has sent its final (un-paused) Complete")
 	zz.Assert(sb.Status == datatransfer.Completing || sb.Status == datatransfer.Completed, "initiator Completed => the responder settles in Completed")
-	zz.Assert(w.senderDone && w.requesterDone, "initiator Completed => both transports finished")
+	zz.Assert(w.everSenderDone && w.everRequesterDone, "initiator Completed => both transports finished (at least once)")
 	zz.Reach("both ends completed")
 }
 
@@ -261,10 +262,10 @@ func verifTwoParty(pull bool, steps int, disturb bool) {
 			}
 			s.m.OnTransferInitiated(w.chid)
 		case actSenderDone:
-			w.senderDone = true
+			w.senderDone, w.everSenderDone = true, true
 			_ = w.sender().m.OnChannelCompleted(w.chid, nil)
 		case actRequesterDone:
-			w.requesterDone = true
+			w.requesterDone, w.everRequesterDone = true, true
 			_ = w.requester().m.OnChannelCompleted(w.chid, nil)
 		case actRelease:
 			_ = w.b.m.UpdateValidationStatus(ctx, w.chid, datatransfer.ValidationResult{Accepted: true})
